@@ -1262,12 +1262,11 @@ class _FPCoreCompileInstance(Visitor):
             case _:
                 raise NotImplementedError(repr(data))
 
-    def _visit_context(self, stmt: ContextStmt, ctx: None):
+    def _visit_context(self, stmt: ContextStmt, ctx: fpc.Expr | None):
         # check if the context is bound
         if isinstance(stmt.target, NamedId):
             raise FPCoreCompileError('Context statements cannot bind to a variable', stmt.target)
 
-        body = self._visit_block(stmt.body, ctx)
         # extract a context value
         match stmt.ctx:
             case ForeignVal():
@@ -1288,7 +1287,26 @@ class _FPCoreCompileInstance(Visitor):
         # transform properties
         for k in props:
             props[k] = fpc.Data(self._visit_data(props[k]))
-        return fpc.Ctx(props, body)
+
+        if ctx is None:
+            # the block ends the function (it holds the `return`)
+            return fpc.Ctx(props, self._visit_block(stmt.body, None))
+
+        # FPCore scopes `!` over an expression, FPy over a statement block:
+        # only the block goes under the annotation.  Whatever it assigns is
+        # bound around the continuation `ctx`, which stays outside.
+        changed = sorted(self.def_use.mutated_in(stmt.body) | self.def_use.introed_in(stmt.body))
+        if len(changed) <= 1:
+            # (let ([<x> (! <props> (begin <body> <x>))]) <ctx>)
+            x = str(changed[0]) if changed else '_'
+            res = fpc.Var(x) if changed else fpc.Integer(0)
+            return fpc.Let([(x, fpc.Ctx(props, self._visit_block(stmt.body, res)))], ctx)
+        # (let* ([t (! <props> (begin <body> (array <x> ...)))] [<x> (ref t 0)] ...) <ctx>)
+        t = str(self.gensym.fresh('t'))
+        res = fpc.Array(*[fpc.Var(str(x)) for x in changed])
+        binds = [(t, fpc.Ctx(props, self._visit_block(stmt.body, res)))]
+        binds += [(str(x), fpc.Ref(fpc.Var(t), fpc.Integer(i))) for i, x in enumerate(changed)]
+        return fpc.LetStar(binds, ctx)
 
     def _visit_assert(self, stmt: AssertStmt, ctx: None):
         # strip the assertion
